@@ -110,7 +110,12 @@ def fmtIntInterval (exact : Bool) (q : Rat) : String :=
 def fmtStoredInt (sg : Bool) (s x : Rat) (v : Option Int) : String :=
   match v with
   | none => "ub"
-  | some _ => if !sg && decide (x < 0) then "0" else fmtIntInterval (exactScale s) (x / s)
+  | some _ =>
+    if !sg && decide (x < 0) then "0"
+    -- the implementation forms the quotient and the `+0.5F` in binary32: within the rounding error of 2³¹ the
+    -- conversion to `int` may already be undefined although the exact quotient is still inside
+    else if !(exactScale s) && decide (absR (x / s) + 1 / 2 + (absR (x / s) + 1) / 4194304 ≥ 2147483648) then "ub"
+    else fmtIntInterval (exactScale s) (x / s)
 
 def convLine (t : NumT) (given : Rat) (rowLen : Nat) (xs : List Rat) : String :=
   let rows := chunks rowLen xs
@@ -128,23 +133,62 @@ def convLine (t : NumT) (given : Rat) (rowLen : Nat) (xs : List Rat) : String :=
 
 def fmtOpt (o : Option String) : String := o.getD "-"
 
-def examLine (toks : List String) : String :=
-  -- exam mod orient rot cal low high rn hl br dbhl dbbr nframes (start end)*
+def fmtExam (e' : Exam) : String :=
+  s!"{e'.modality} {e'.orientation} {e'.rotation} {fmtRat e'.calibration} {fmtRat e'.lowThres} {fmtRat e'.highThres} " ++
+    s!"{if e'.rnName = "" then "-" else e'.rnName} {fmtRat e'.rnHalfLife} {fmtRat e'.rnBranching} {e'.frames.length}" ++
+    String.join (e'.frames.map fun p => s!" {fmtRat p.1} {fmtRat p.2}")
+
+def pairs : List String → List (Rat × Rat)
+  | a :: b :: rest => (parseNum a, parseNum b) :: pairs rest
+  | _ => []
+
+/-- `mod orient rot cal low high rn hl br dbhl dbbr nframes (start end)*` → the exam information the header reader
+    reconstructs (`readExam (writeExam e) db`) -/
+def examRoundTrip (toks : List String) : Option Exam :=
   match toks with
   | m :: o :: r :: cal :: lo :: hi :: rn :: hl :: br :: dbhl :: dbbr :: _nf :: fr =>
-    let rec pairs : List String → List (Rat × Rat)
-      | a :: b :: rest => (parseNum a, parseNum b) :: pairs rest
-      | _ => []
     let e : Exam :=
       { modality := m.toNat?.getD 0, orientation := o.toNat?.getD 3, rotation := r.toNat?.getD 5
         calibration := parseNum cal, lowThres := parseNum lo, highThres := parseNum hi
         frames := pairs fr, rnName := if rn = "-" then "" else rn
         rnHalfLife := parseNum hl, rnBranching := parseNum br }
     let db : Option (Rat × Rat) := if parseNum dbhl > 0 then some (parseNum dbhl, parseNum dbbr) else none
-    let e' := readExam (writeExam e) db
-    s!"{e'.modality} {e'.orientation} {e'.rotation} {fmtRat e'.calibration} {fmtRat e'.lowThres} {fmtRat e'.highThres} " ++
-      s!"{if e'.rnName = "" then "-" else e'.rnName} {fmtRat e'.rnHalfLife} {fmtRat e'.rnBranching} {e'.frames.length}" ++
-      String.join (e'.frames.map fun p => s!" {fmtRat p.1} {fmtRat p.2}")
+    some (readExam (writeExam e) db)
+  | _ => none
+
+/-- `exam`: the header's exam information (dynamic / parametric Interfile image) -/
+def examLine (toks : List String) : String :=
+  match examRoundTrip toks with
+  | some e' => fmtExam e'
+  | none => "bad-op"
+
+/-- `exams`: a single image (`read_interfile_image` keeps the first time frame only) -/
+def examSingleLine (toks : List String) : String :=
+  match examRoundTrip toks with
+  | some e' => fmtExam (singleExam e')
+  | none => "bad-op"
+
+/-- `examf f …`: member `f` of an Interfile dynamic image -/
+def examMemberLine (f : Nat) (toks : List String) : String :=
+  match examRoundTrip toks with
+  | some e' => match memberExam e' f with
+    | some m => fmtExam m
+    | none => "err"
+  | none => "bad-op"
+
+/-- `examm mod orient rot cal low high rn hl br k (start end)*k`: exam information of a Multi dynamic image from the
+    exam information of its members as read back (all fields of member 1, the time frame of every member) -/
+def examMultiLine (toks : List String) : String :=
+  match toks with
+  | m :: o :: r :: cal :: lo :: hi :: rn :: hl :: br :: _k :: fr =>
+    let mk (p : Rat × Rat) : Exam :=
+      { modality := m.toNat?.getD 0, orientation := o.toNat?.getD 3, rotation := r.toNat?.getD 5
+        calibration := parseNum cal, lowThres := parseNum lo, highThres := parseNum hi
+        frames := [p], rnName := if rn = "-" then "" else rn
+        rnHalfLife := parseNum hl, rnBranching := parseNum br }
+    match multiDynExam ((pairs fr).map mk) with
+    | some e => fmtExam e
+    | none => "err"
   | _ => "bad-op"
 
 def stepLine (line : String) : String :=
@@ -180,6 +224,19 @@ def stepLine (line : String) : String :=
     | .ok _ => "ok"
     | .error _ => "err"
   | "exam" :: rest => examLine rest
+  | "exams" :: rest => examSingleLine rest
+  | "examf" :: f :: rest => examMemberLine (N f) rest
+  | "examm" :: rest => examMultiLine rest
+  | "ctrunc" :: nm :: sizeAll :: bytes :: fileLen :: offs =>
+    match readDatasets (nm = "1") (offs.map N) (N sizeAll) (N bytes) (N fileLen) with
+    | .ok _ => "ok"
+    | .error _ => "err"
+  | "mtrunc" :: sizeAll :: bytes :: lens =>
+    match readMembers (N sizeAll) (N bytes) (lens.map N) with
+    | .ok _ => "ok"
+    | .error _ => "err"
+  | ["offs", nsets, sizeAll, bytes] =>
+    " ".intercalate ((datasetOffsets (N nsets) (N sizeAll) (N bytes)).map toString)
   | _ => "bad-op"
 
 partial def loop (h : IO.FS.Stream) : IO Unit := do
